@@ -6,7 +6,14 @@ InfoStream = SharedStream('debug_info')
 InfoSecT = Rec('DebugSectionDescriptor', stream=InfoStream, name=Str, global_offset=Nat, size=Nat, address=Nat)
 AddrSecT = Rec('DebugSectionDescriptor', stream=Stream, name=Str, global_offset=Nat, size=Nat, address=Nat)
 AttrT = Rec('AttributeValue', name=Str, form=Str, value=Nat, raw_value=Nat, offset=Nat, indirection_length=Nat)
-DInfoT = Obj('DWARFInfo', debug_info_sec=InfoSecT, debug_addr_sec=Opt(AddrSecT), structs=StructsT)
+def _sec():
+    return Rec('DebugSectionDescriptor', stream=Stream, name=Str, global_offset=Nat, size=Nat, address=Nat)
+
+
+SupT = Obj('DWARFInfo', debug_str_sec=_sec())
+DInfoT = Obj('DWARFInfo', debug_info_sec=InfoSecT, debug_addr_sec=SymOpt(AddrSecT), structs=StructsT,
+             debug_str_sec=_sec(), debug_line_str_sec=_sec(), debug_str_offsets_sec=_sec(), debug_loclists_sec=_sec(),
+             debug_rnglists_sec=_sec(), supplementary_dwarfinfo=SymOpt(SupT))
 TermT = Obj('DIE', offset=Nat, size=Nat)
 DIET = Obj('DIE', offset=Nat, size=Nat, abbrev_code=Nat, tag=SymOpt(CodeT(32)), has_children=SymOpt(Bool),
            attributes=DictOf(AttrT), _terminator=SymOpt(TermT), _parent=Any, stream=InfoStream)
